@@ -9,7 +9,7 @@ with the model run under the same order (conformance)."""
 import json, os, random
 import vlib
 
-FAMILIES = ["types", "consts", "svcs", "mixed", "modules", "modsvcs", "dotted", "aliasitem", "lists"]
+FAMILIES = ["types", "consts", "svcs", "mixed", "modules", "modsvcs", "dotted", "aliasitem", "lists", "selfstruct"]
 
 
 def canary(row, rng):
